@@ -333,6 +333,15 @@ theorem decCallsB_sim (p : Params) (i : Nat) (calls : List BCall) :
 
 /-! ### The decoder session from `Decoder::new()` -/
 
+/-- Nothing pending: `stable_prefix()` is every buffered slice. -/
+theorem stableCount_of_no_pending (v : Iov) (h : v.hasPending = false) :
+    v.stableCount = some v.slices.length := by
+  unfold Iov.hasPending at h
+  unfold Iov.stableCount
+  cases hb : v.backrefs with
+  | nil => rfl
+  | cons e t => rw [hb] at h; simp at h
+
 theorem findSome_id_none_iff (l : List (Option DecErr)) : l.findSome? id = none ↔ l.filterMap id = [] := by
   induction l with
   | nil => simp
@@ -982,5 +991,55 @@ theorem decCallsA_of_first_error (p : Params) (i : Nat) (pre : List ACall) (c : 
       rw [h0, List.drop_length]
       simp only
       exact ih r0 r1 r' h (by rw [hy, hxy.2, List.append_nil]) hc (by rw [he, h0])
+
+/-- A call that returned `Err` leaves the decoder in `InitialState`. -/
+theorem decCallB_failed (p : Params) (i : Nat) (r r' : DRun) (c : BCall) (e : DecErr)
+    (h : decCallB p i r c = some r') (he : r'.errs = r.errs ++ [e]) : r'.s = .initial := by
+  have key : ∀ (res : Except DecErr DecState), r.errs ++ errOf res = r.errs ++ [e] → decResume res = .initial := by
+    intro res hres
+    cases res with
+    | ok s1 => simp [errOf] at hres
+    | error e1 => rfl
+  cases c with
+  | a c =>
+    cases c with
+    | call c =>
+      cases c with
+      | feed m d =>
+        simp only [decCallB] at h
+        cases h2 : decFeedCall p i r.w r.s m d with
+        | none => rw [h2] at h; cases h
+        | some x => rw [h2] at h; cases h; exact key _ he
+      | consume k =>
+        simp only [decCallB] at h
+        cases hv : r.w.iov i with
+        | none => rw [hv] at h; cases h
+        | some v =>
+          cases hx : r.w.consume i k with
+          | none => rw [hv, hx] at h; cases h
+          | some x => rw [hv, hx] at h; cases h; simp at he
+      | advance k =>
+        simp only [decCallB] at h
+        cases hv : r.w.iov i with
+        | none => rw [hv] at h; cases h
+        | some v =>
+          cases hx : r.w.advance i k with
+          | none => rw [hv, hx] at h; cases h
+          | some x => rw [hv, hx] at h; cases h; simp at he
+    | read count attempts src script =>
+      simp only [decCallB] at h
+      cases h2 : decodeRead p r.w i r.s ⟨src, script⟩ count attempts with
+      | none => rw [h2] at h; cases h
+      | some x =>
+        obtain ⟨w1, res, o⟩ := x
+        rw [h2] at h
+        cases res with
+        | error k => cases h; simp at he
+        | ok y => obtain ⟨n, dres⟩ := y; cases h; exact key _ he
+  | rd k =>
+    simp only [decCallB] at h
+    cases hx : readDrain r.w i k with
+    | none => rw [hx] at h; cases h
+    | some x => rw [hx] at h; cases h; simp at he
 
 end Woodpile.EncWorld
